@@ -409,3 +409,70 @@ func vh_C19_L3_stale_cookie_echo_keeps_retries() { vh_C04_L2_stale_cookie_echo_k
 // C19.L3f: T3 puts the earliest outstanding chunk on the wire again whatever the peer's
 // window (zero, or open but smaller than the chunk) (= C06.L2).
 func vh_C19_L3_t3_retransmits_into_any_window() { vh_C06_L2_abandoned_never_resent() }
+
+// C19.L5c: a DATA chunk that has to be dropped because the receive buffer is full is still
+// acknowledged: the SACK (carrying the zero window) goes out at once or within the delayed
+// ack time, never not at all (the sender's window probes depend on it).
+func vh_C19_L5_dropped_data_is_still_acked() {
+	a, _ := vNewAssocOpts(vAssocOpts{recvBuf: 4})
+	cum := a.peerLastTSN()
+	vassert(vDeliver(a, vDataChunk(a, cum+1, 4, true, 4)) == nil, "DATA ok") // fills the buffer
+	_ = vWriterWake(a)
+	vFireAck(a)
+	_ = vWriterWake(a)
+	vassert(a.getMyReceiverWindowCredit() == 0, "the window is closed")
+	a.lock.Lock()
+	a.ackState = ackStateIdle
+	a.lock.Unlock()
+	probe := vDataChunk(a, cum+2, 5, true, 1) // the sender's window probe
+	probe.immediateSack = nondetBool()
+	vassert(vDeliver(a, probe) == nil, "DATA ok")
+	s5 := a.streams[5]
+	vassert(s5 == nil || s5.getNumBytesInReassemblyQueue() == 0, "the probe is dropped (no room)")
+	vassert(a.ackState == ackStateImmediate || (a.ackState == ackStateDelay && a.ackTimer.isRunning()), "but it is acknowledged: a SACK is due at once or when the ack timer expires")
+	vFireAck(a)
+	nSack := 0
+	for _, raw := range vWriterWake(a) {
+		if p := vDecode(raw); p != nil {
+			for _, c := range p.chunks {
+				if sk, ok := c.(*chunkSelectiveAck); ok {
+					nSack++
+					vassert(sk.cumulativeTSNAck == cum+1 && sk.advertisedReceiverWindowCredit == 0, "the SACK tells the sender where the receiver stands and that the window is closed")
+				}
+			}
+		}
+	}
+	vassert(nSack >= 1, "the SACK goes out")
+	vcover("end")
+}
+
+// C19.L7c: a heartbeat is answered also when it shares its packet with other chunks (in front
+// of a SACK or a COOKIE ACK, as other stacks bundle it).
+func vh_C19_L7_bundled_heartbeat_is_answered() {
+	_, b := vPair(vAssocOpts{pickTSN: true})
+	info := nondetBytes(8)
+	hb := &chunkHeartbeat{chunkHeader: chunkHeader{typ: ctHeartbeat}, params: []param{&paramHeartbeatInfo{heartbeatInformation: info}}}
+	var follower chunk
+	if vPick(2) == 1 {
+		follower = &chunkSelectiveAck{cumulativeTSNAck: b.cumulativeTSNAckPoint, advertisedReceiverWindowCredit: 1 << 16}
+	} else {
+		follower = &chunkCookieAck{}
+	}
+	raw, err := (&packet{sourcePort: 5000, destinationPort: 5001, verificationTag: b.myVerificationTag, chunks: []chunk{hb, follower}}).marshal(true)
+	vassert(err == nil, "bundle marshals")
+	vInbound(b, raw)
+	nAck := 0
+	for _, out := range vWriterWake(b) {
+		if p := vDecode(out); p != nil {
+			for _, c := range p.chunks {
+				if ack, ok := c.(*chunkHeartbeatAck); ok && len(ack.params) == 1 {
+					if hi, ok := ack.params[0].(*paramHeartbeatInfo); ok && vBytesEq(hi.heartbeatInformation, info) {
+						nAck++
+					}
+				}
+			}
+		}
+	}
+	vassert(nAck == 1, "the bundled heartbeat is answered, echoing its information")
+	vcover("end")
+}
